@@ -245,7 +245,8 @@ def precision_run_mtl(scn: dict, rng: random.Random) -> list[str]:
     losses = [int(l) for l in scn["losses"]]
     tparams = [[int(p) for p in tp] for tp in scn["tparams"]]
     shared = [int(x) for x in scn["shared"]]
-    w = torch.tensor([float(v) + 2.0 ** -28 * (1 + i % 2) for i, v in enumerate(scn["w"])], dtype=torch.float64)
+    w_ref = torch.tensor([float(v) + 2.0 ** -28 * (1 + i % 2) for i, v in enumerate(scn["w"])], dtype=torch.float64)
+    w = w_ref.clone()            # the aggregator gets a tensor of its own: the twin must not see what the call may do to it
     k = scn["k"]
     try:
         mtl_backward([B.node(l) for l in losses], [B.node(f) for f in feats], Constant(w),
@@ -265,7 +266,7 @@ def precision_run_mtl(scn: dict, rng: random.Random) -> list[str]:
         gs = torch.autograd.grad(T.node(li), tf, retain_graph=True, allow_unused=True)
         for j, g in enumerate(gs):
             if g is not None:
-                cts[j] = cts[j] + w[i] * g
+                cts[j] = cts[j] + w_ref[i] * g
         if tparams[i]:
             gp = torch.autograd.grad(T.node(li), [T.node(p) for p in tparams[i]], retain_graph=True, allow_unused=True)
             for p, g in zip(tparams[i], gp):
